@@ -425,11 +425,11 @@ func (ex *Exec) regexpPattern(st *State, v Value, instr ssa.Instruction) string 
 
 // simple anchored regexps: ^ item* $ with item = [0-9]{n} | [0-9]{m,n} | [0-9]+ | literal, possibly grouped.
 type reItem struct {
-	class  string // "digit" or "" for literal
-	lit    byte
-	min    int
-	max    int // -1 = unbounded
-	group  int // capture group number (0 = none)
+	class string // "digit" or "" for literal
+	lit   byte
+	min   int
+	max   int // -1 = unbounded
+	group int // capture group number (0 = none)
 }
 
 type simpleRe struct {
